@@ -35,6 +35,26 @@ def rand_case(rng, kinds=None, nmin=6, nmax=30):
         if len(inst) <= b - a:
             pos = rng.randint(a, b - len(inst))
             t[pos:pos + len(inst)] = inst
+    if d["kind"] == "cds" and d.get("start_codon") is not None and rng.random() < 0.6:
+        # an interior Met codon turned into another start codon of the table, with the window on it: the localized
+        # specification must read it as the full one does (a start codon is only special at the start)
+        from Bio.Data import CodonTable
+        la, lb, lst = d["location"]
+        ncod = (lb - la) // 3
+        if ncod >= 2 and d.get("translation") is None:
+            j = rng.randint(1, ncod - 1)
+            lo = la + 3 * j if lst != -1 else lb - 3 * (j + 1)
+            comp = {"A": "T", "T": "A", "G": "C", "C": "G"}
+
+            def on_strand(c):
+                return c if lst != -1 else "".join(comp[x] for x in reversed(c))
+            sq = list(seq)
+            sq[lo:lo + 3] = on_strand("ATG")
+            seq = "".join(sq)
+            starts = [c for c in CodonTable.unambiguous_dna_by_name[d["table"]].start_codons if c != "ATG"] or ["ATG"]
+            t = list(seq)
+            t[lo:lo + 3] = on_strand(rng.choice(starts))
+            a, b = (lo, lo + 3) if rng.random() < 0.6 else (lo, min(n, lo + rng.choice([1, 2, 4, 6])))
     return dict(sequence=seq, spec=d, window=[a, b], wstrand=rng.choice([0, 0, 0, 1, -1]), rh=rh, edited="".join(t))
 
 
